@@ -74,6 +74,7 @@ typedef struct proc {
     bool holds_res[MAXRES];
     uint64_t pool_held[MAXPOOL];
     uint64_t last_nonzero_ret_seq;   /* event seq of the last non-success return (for narrow relaxations) */
+    uint64_t last_preempted_ret_seq; /* event seq of the last return with the preempted code */
     double last_signal_time;
     bool ran_this_event, named_this_event, prio_touched_this_event;
     uint32_t prio_changes;       /* how often its priority was set in this run */
